@@ -162,8 +162,17 @@ def r4_prebuilt_threaded(ctx):
     ctx.floor('C03.R4', 'graph (re)construction call sites with a prebuilt-ids argument', n, 8)
 
 
+def r5_derived_lifecycle(ctx):
+    from .compiler_common import derived_inherits
+    ctx.rule('C03.R5', 'P7 provenance: a component derived from a registered one (the Ok-matcher of a fallible constructor, the synthetic constructor '
+             'of a prebuilt / config type) has the lifecycle of the component it derives from, read through the lifecycle getter and never '
+             're-mapped: a transient fallible constructor stays transient (one call per injection site), a singleton stays a singleton.')
+    derived_inherits(ctx, 'C03.R5', 'lifecycle', '::Lifecycle', 'lifecycle')
+
+
 def check(ctx):
     r1_tables(ctx)
     r2_dedup(ctx)
     r3_invariants(ctx)
     r4_prebuilt_threaded(ctx)
+    r5_derived_lifecycle(ctx)
